@@ -194,7 +194,7 @@ def rand_update(rng, mk, h=0, forms=('pix', 'pix', 'ring', 'setitem_arr', 'setit
             # a record single value is passed as a length-1 array
             st['values'] = [st['values']]
             st['single'] = False
-            if len(st['pixels']) != 1:
+            if len(st['pixels']) > 1:
                 st['pixels'] = st['pixels'][:1]
                 if form == 'setitem_slice':
                     st['slice'] = [st['pixels'][0], st['pixels'][0] + 1, 1]
